@@ -73,9 +73,10 @@ def main():
         sh("git -C /repo worktree remove --force %s" % wt)
         shutil.rmtree(tgt, ignore_errors=True)
         shutil.rmtree(tgt + "-cfg", ignore_errors=True)
-        for d in os.listdir(os.path.join(ROOT, "work")) if os.path.isdir(os.path.join(ROOT, "work")) else []:
-            if d.startswith("target-"):
-                shutil.rmtree(os.path.join(ROOT, "work", d), ignore_errors=True)
+        # only this scratch tree's harness target (checklib: work/target-<blake2b(repo path)>), so that
+        # several confirmations can run side by side
+        import hashlib
+        shutil.rmtree(os.path.join(ROOT, "work", "target-" + hashlib.blake2b(os.path.abspath(wt).encode(), digest_size=4).hexdigest()), ignore_errors=True)
     print(json.dumps(result, indent=1))
     if result["confirmed"]:
         dst = os.path.join(ROOT, "seeded", name)
